@@ -4,7 +4,7 @@
 (* of the case's kind.  All lines are judged; the set of rejected line     *)
 (* numbers is printed at the end ("BAD" line) - TLC decides every case.    *)
 EXTENDS TextMatch, ReMatch, Atoms, ReVM, Cond, ArenaFile, Limits, FieldMut, Json, IOUtils, TLC
-SH == INSTANCE SigHandler WITH Threads <- {1}, Scans <- 1, CountInsideIf <- FALSE, pc <- 0, left <- 0, mutex <- 0, usecount <- 0, installed <- FALSE, log <- << >>, SaveMask <- TRUE, MaxFaults <- 0, blocked <- 0, faults <- 0, killed <- FALSE
+SH == INSTANCE SigHandler WITH Threads <- {1}, Scans <- 1, CountInsideIf <- FALSE, pc <- 0, left <- 0, mutex <- 0, usecount <- 0, installed <- FALSE, log <- << >>, SaveMask <- TRUE, MaxFaults <- 0, OneShot <- FALSE, blocked <- 0, faults <- 0, killed <- FALSE
 CQ == INSTANCE CliQueue WITH NFiles <- 1, Consumers <- {1}, Q <- 1, FinishTokens <- 1, NoMutex <- FALSE, ring <- 0, head <- 0, tail <- 0, used <- 0, unused <- 0,
                           qlock <- 0, pcP <- 0, todo <- << >>, pcC <- 0, got <- 0, scanned <- 0, overwritten <- FALSE
 AC == INSTANCE AhoCorasick WITH StrictBacktrack <- FALSE, NoFailureLists <- FALSE, BlindOptimise <- FALSE, Alphabet <- {1}, MaxLen <- 1, MaxAtoms <- 1,
